@@ -119,7 +119,7 @@ func Scalars() map[string]interface{} {
 	return map[string]interface{}{
 		"b": true, "nb": NBool(false), "i": -5, "i8": int8(-128), "i16": int16(300), "i32": int32(-70000), "i64": int64(math.MaxInt64),
 		"imin": int64(math.MinInt64), "u": uint(7), "u8": uint8(255), "u16": uint16(65535), "u32": uint32(4294967295), "u64": uint64(math.MaxUint64),
-		"f32": float32(1.5), "f64": 0.1, "big": float64(9007199254740993), "i53": int64(9007199254740993), "nz": math.Copysign(0, -1), "nan": math.NaN(),
+		"f32": float32(1.5), "f64": 0.1, "f32one": float32(1), "nf32": NF32(1), "pf32": func() *float32 { f := float32(1); return &f }(), "i15": 15, "u17": uint(17), "f64one": 1.0, "big": float64(9007199254740993), "i53": int64(9007199254740993), "nz": math.Copysign(0, -1), "nan": math.NaN(),
 		"inf": math.Inf(1), "f16m": float32(16777216), "sub": 5e-324,
 		"s": "hello", "ns": NString("named"), "es": "", "us": "héllo wörld", "num": "42", "sl": "/usr/bin",
 		"jn": json.Number("42"), "jf": json.Number("1.5"), "jbig": json.Number("9007199254740993"), "jhuge": json.Number("1e400"), "jbad": json.Number("abc"),
@@ -149,6 +149,11 @@ func Containers() map[string]interface{} {
 		"nsl":  NSlice{7, 8},
 		"any":  []interface{}{1, "x", 2.5, true, nil, int8(3), uint(4), json.Number("6"), ip(5), (*int)(nil)},
 		"anye": []interface{}{},
+		"anyz": []interface{}{8080, 0, 0.0, 1.5, false, true, "", "s", uint8(0), int64(0)},
+		"anyf": []interface{}{8080.0, 0.0, 443.0},
+		"anyt": []interface{}{true, false},
+		"anyn": []interface{}{nil, nil},
+		"arri": [2]interface{}{7.0, 0.0},
 		"anyb": []interface{}{"x", []int{1}},
 		"anys": []interface{}{struct{}{}},
 		"lp":   []*int{&one, nil, &two},
@@ -167,7 +172,15 @@ func Containers() map[string]interface{} {
 		"mu":   map[uint16]bool{9: true},
 		"mb":   map[bool]string{true: "yes"},
 		"mf":   map[float64]string{0.5: "half"},
-		"mns":  map[NString]int{"x": 1},
+		"mns":  map[NString]int{"x": 1, "y": 2, "z": 0},
+		"mjn":  map[json.Number]int{"1": 1},
+		"odd":  map[string]interface{}{"007": "bond", "7": "seven", "a~1b": "tilde", "a/b": "slash", "a~b": "t2", "010": "oct", "": "empty", " sp ": "spaces", "Key": "upper", "key": "lower"},
+		"lodd": []string{"i0", "i1", "i2", "i3", "i4", "i5", "i6", "i7", "i8", "i9", "i10"},
+		"mix3": map[string]interface{}{"a": map[string]interface{}{"V": 1}, "b": map[string]interface{}{"V": []int{1}}, "c": map[string]interface{}{"V": 2}},
+		"pnl":  (*[]string)(nil),
+		"pnm":  (*map[string]int)(nil),
+		"f32s": []float32{1, 16777216},
+		"mf32": map[float32]string{1: "one"},
 		"mif":  map[interface{}]int{"x": 1, 5: 2, NString("n"): 3},
 		"mst":  map[struct{ A int }]int{{1}: 1},
 		"mp":   map[string]*int{"p": &one, "n": nil},
